@@ -1,0 +1,13 @@
+//go:build verif
+
+package clickhouse_planner
+
+// VerifParseRe exposes the regexp-parser grammar of ParserPlanner (parseRe, regexAST.String,
+// regexAST.collectGroupNames) to the verification harness. No behaviour of its own.
+func VerifParseRe(re string) (string, []string, error) {
+	ast, err := (&ParserPlanner{}).parseRe(re)
+	if err != nil {
+		return "", nil, err
+	}
+	return ast.String(), ast.collectGroupNames(nil), nil
+}
